@@ -36,7 +36,7 @@ def run_surv(c, m):
         c01_deep.exhaustive(c, m, base, "survivors", ["RestartSame"])
         c01_deep.exhaustive(c, m, dict(base, Overlap=True, MaxKills=1), "survivors + overlapping publications, 1 kill", ["RestartSame", "TickOverlap"])
     need = ("flushes", "compactions", "redeployedInPlace", "redeployedAtAnotherPosition", "replacements", "jobSurvived", "lateDelivered",
-            "restoredWithTables", "writesGivenUp")
+            "restoredWithTables", "writesGivenUp|publishedAfterRestart")
     n = (60, 30) if quick else (400, 300)
     s = c.seed * 100 + 70
     extra = dict(c01_deep.DKV, Survive=True, Chunk=15, StopAfterViolations=5, BudgetS=m.BUDGET[c.tier])
